@@ -29,11 +29,12 @@ def check_instance(env, rec, inst):
     d = vars(inst)
     for a in rec["attrs"]:
         n = G.attr_name(a)
-        if n not in d:
+        store = f"_{n}_value" if a.get("prop") == "setter" else n  # (a property with a setter keeps the value under a private name)
+        if store not in d:
             continue
-        ok, where = reftype.conforms(a["kind"], d[n], env)
+        ok, where = reftype.conforms(a["kind"], d[store], env)
         if not ok:
-            bad.append((n, a["kind"], where, repr(d[n])[:80]))
+            bad.append((n, a["kind"], where, repr(d[store])[:80]))
     return bad
 
 
